@@ -23,3 +23,20 @@ func TestF12_SlidingWindowMaxFunc(t *testing.T) {
 		}
 	}
 }
+
+// F22: limiter.New() without a config took ConfigDefault as is — its MaxFunc is nil — and the first
+// request dereferenced it.
+func TestF22_LimiterDefaultConfigServesRequests(t *testing.T) {
+	defer func() {
+		if r := recover(); r != nil {
+			t.Fatalf("a request to an app using limiter.New() crashed: %v", r)
+		}
+	}()
+	app := fiber.New()
+	app.Use(limiter.New())
+	app.Get("/", func(c fiber.Ctx) error { return c.SendString("ok") })
+	rc := do(app, "GET", "/")
+	if rc.Response.StatusCode() != 200 {
+		t.Fatalf("status %d", rc.Response.StatusCode())
+	}
+}
